@@ -136,7 +136,7 @@ def cases(ctx):
     ]
     small = [s for s in specs if sum(n for _, n, _ in s) <= 400]
     big = [('atom', 4000, 1)]
-    nper = ctx.scale(1, 6)
+    nper = ctx.scale(2, 8)
 
     def add(spec, cols, tn, kws, family, op='get'):
         c = {'op': op, 'spec': spec, 'db': dbj_of(spec), 'tn': tn, 'kw': jkw(kws), 'family': family,
